@@ -125,6 +125,7 @@ def gen_cases(tier, seed):
     # entities built from the SAME key_file / cert_file paths whose content was replaced in between (key roll-over)
     for k in range(2 if tier == "quick" else 6):
         cases.append({"id": "key-rollover-%d" % k, "sig": ["key-rollover", k], "kind": "rollover", "k": k})
+        cases.append({"id": "entity-churn-%d" % k, "sig": ["churn", k], "kind": "churn", "k": k, "own_worker": True, "generations": 12 if tier == "quick" else 40, "width": 6})
     cases.append({"id": "schedules-2-threads", "sig": ["schedules", 2], "kind": "schedules", "threads": 2})
     cases.append({"id": "schedules-3-threads", "sig": ["schedules", 3], "kind": "schedules", "threads": 3, "limit": 400 if tier == "quick" else 100000})
     # line-level gates inside get_signer/sign: 2 threads, preemption bounded
@@ -564,6 +565,33 @@ def run_case(case, ctx):
                                  "what": "key roll-over at one path: entity built while the files held k%02d signs a URL that verifies under %s (files now hold k%02d)" % (
                                      k2, ["k%02d" % i for i in ok], ki), "detail": {"url": url[:500]}})
         sigs.append(["key-rollover", case["k"]])
+    elif kind == "churn":
+        # entities come and go in a long-lived process (re-initialisation, key roll-over): each generation has a key of its own, is used, dropped
+        # and collected before the next one is built - whatever the process remembers about entities that no longer exist must not sign for new ones
+        import gc
+        rng = random.Random("%s/%s" % (ctx.seed, case["id"]))
+        idpmd = fed.metadata_of(fed.idp_conf())
+        alg = rng.choice(sorted(ALGS))
+        keys = [4, 5, 6, 7, 8, 9, 10, 11]
+        for g in range(case["generations"]):
+            ki = keys[g % len(keys)]
+            ents = [fed.make_sp(fed.sp_conf(eid="https://churn%d-%d.example.org/md" % (g, j), key_i=ki, enc_keys=()), [idpmd]) for j in range(case["width"])]
+            for e2 in ents:
+                rid, req = e2.create_authn_request(fed.SSO_REDIRECT)
+                url = signed_url(e2, "%s" % req, "rs", alg)
+                counters["urls_checked"] = counters.get("urls_checked", 0) + 1
+                ok = [i for i in range(12) if independent_verify(url, i)]
+                if ok != [ki]:
+                    viol.append({"key": "C15/url-signed-with-another-entitys-key" if ok else "C15/signed-url-does-not-verify-under-signers-certificate",
+                                 "what": "generation %d of entities (key k%02d; earlier generations used, dropped and collected): URL verifies under %s" % (
+                                     g, ki, ["k%02d" % i for i in ok]), "detail": {"url": url[:500]}})
+                    break
+            del ents, e2
+            gc.collect()
+            counters["generations"] = counters.get("generations", 0) + 1
+            if viol:
+                break
+        sigs.append(["churn", case["k"]])
     elif kind == "schedules":
         status = install_monitoring()
         extra["monitoring"] = status
@@ -659,7 +687,7 @@ def run_case(case, ctx):
     for v in viol:
         uniq.setdefault(v["key"] + v["what"][:60], v)
     return {"outcome": "violations" if viol else "held", "nontrivial": counters.get("urls_checked", 0) > 0, "violations": list(uniq.values())[:8],
-            "counters": counters, "sigs": sigs, "evals": max(1, counters.get("histories", 0) + counters.get("interleavings_executed", 0) + (1 if kind in ("inputs", "free", "rollover", "verify-threads", "verify-history") else 0)),
+            "counters": counters, "sigs": sigs, "evals": max(1, counters.get("histories", 0) + counters.get("interleavings_executed", 0) + (1 if kind in ("inputs", "free", "rollover", "churn", "verify-threads", "verify-history") else 0)),
             "obs": extra}
 
 
